@@ -898,15 +898,21 @@ impl<'ast, 'c> Visit<'ast> for FnVisitor<'c> {
 					return;
 				}
 			}
-			let recv = match &*fl.expr {
+			// `for (I, PAT) in <one of the forms below>.enumerate()`: the pair binds the loop index before its increment
+			let (iter_expr, enumerated): (&syn::Expr, bool) = match &*fl.expr {
+				syn::Expr::MethodCall(mc) if mc.method == "enumerate" && mc.args.is_empty() => (&*mc.receiver, true),
+				e => (e, false),
+			};
+			let recv = match iter_expr {
 				syn::Expr::MethodCall(mc) if mc.method == "iter" && mc.args.is_empty() => br(mc.receiver.span()),
 				// `for PAT in X.into_iter()` over an owned Vec named by a path: as `for PAT in X`
 				syn::Expr::MethodCall(mc) if mc.method == "into_iter" && mc.args.is_empty() && matches!(&*mc.receiver, syn::Expr::Path(_)) && (lc.by_value_as_ref || lc.by_copy || lc.by_clone) => br(mc.receiver.span()),
 				// `for PAT in X` over an owned Vec named by a path: the index loop binds `&X[i]`; accepted only because the
 				// generated text must still type-check, i.e. the body only reads the element
-				syn::Expr::Path(_) if lc.by_value_as_ref || lc.by_copy || lc.by_clone || lc.map_entries => br(fl.expr.span()),
+				syn::Expr::Path(_) if lc.by_value_as_ref || lc.by_copy || lc.by_clone || lc.map_entries => br(iter_expr.span()),
 				_ => die(&format!("{}: loop {}: index_loop needs `for PAT in X.iter()`", self.fname, ord)),
 			};
+			let (en_open, en_close) = if enumerated { (format!("({}, ", format!("vx_i{}", ord)), ")".to_string()) } else { (String::new(), String::new()) };
 			let (ps, pe) = br(fl.pat.span());
 			let iv = format!("vx_i{}", ord);
 			let recv_text = oneline(&self.src[recv.0..recv.1]);
@@ -938,22 +944,22 @@ impl<'ast, 'c> Visit<'ast> for FnVisitor<'c> {
 			if lc.map_entries {
 				self.push(bs + 1, bs + 1, vec![
 					Part::Text("\nlet ".to_string()), Part::Src(ps, pe),
-					Part::Text(format!(" = {}[{}]; {} = {} + 1;\n", ents, iv, iv, iv)),
+					Part::Text(format!(" = {}{}[{}]{}; {} = {} + 1;\n", en_open, ents, iv, en_close, iv, iv)),
 				], "L20");
 			} else if lc.by_clone {
 				self.push(bs + 1, bs + 1, vec![
-					Part::Text("\nlet ".to_string()), Part::Src(ps, pe), Part::Text(" = vf_clone(&".to_string()), Part::Src(recv.0, recv.1),
-					Part::Text(format!("[{}]); {} = {} + 1;\n", iv, iv, iv)),
+					Part::Text("\nlet ".to_string()), Part::Src(ps, pe), Part::Text(format!(" = {}vf_clone(&", en_open)), Part::Src(recv.0, recv.1),
+					Part::Text(format!("[{}]){}; {} = {} + 1;\n", iv, en_close, iv, iv)),
 				], "L20");
 			} else if lc.by_copy {
 				self.push(bs + 1, bs + 1, vec![
-					Part::Text("\nlet ".to_string()), Part::Src(ps, pe), Part::Text(" = ".to_string()), Part::Src(recv.0, recv.1),
-					Part::Text(format!("[{}]; {} = {} + 1;\n", iv, iv, iv)),
+					Part::Text("\nlet ".to_string()), Part::Src(ps, pe), Part::Text(format!(" = {}", en_open)), Part::Src(recv.0, recv.1),
+					Part::Text(format!("[{}]{}; {} = {} + 1;\n", iv, en_close, iv, iv)),
 				], "L20");
 			} else {
 				self.push(bs + 1, bs + 1, vec![
-					Part::Text("\nlet ".to_string()), Part::Src(ps, pe), Part::Text(" = &".to_string()), Part::Src(recv.0, recv.1),
-					Part::Text(format!("[{}]; {} = {} + 1;\n", iv, iv, iv)),
+					Part::Text("\nlet ".to_string()), Part::Src(ps, pe), Part::Text(format!(" = {}&", en_open)), Part::Src(recv.0, recv.1),
+					Part::Text(format!("[{}]{}; {} = {} + 1;\n", iv, en_close, iv, iv)),
 				], "L20");
 			}
 			self.push(we, we, vec![Part::Text(" }".to_string())], "L20");
@@ -1222,6 +1228,22 @@ enum Found<'a> {
 
 fn find_item<'a>(items: &'a [syn::Item], path: &str) -> Option<Found<'a>> {
 	let path = path.trim();
+	// `mod NAME :: <path>`: look the rest up inside that inline module only
+	if path.starts_with("mod ") {
+		let i = path.find("::")?;
+		let mname = path[4..i].trim();
+		let rest = path[i + 2..].trim();
+		for it in items {
+			if let syn::Item::Mod(m) = it {
+				if m.ident == mname {
+					if let Some((_, sub)) = &m.content {
+						return find_item(sub, rest);
+					}
+				}
+			}
+		}
+		return None;
+	}
 	let (head, sel) = match path.find("::") {
 		Some(i) if path.starts_with("impl ") => (path[..i].trim(), Some(path[i + 2..].trim())),
 		_ => (path, None),
@@ -1867,7 +1889,14 @@ fn main() {
 					let a = f.sig.constness.map(|c| br(c.span()).0).or(f.sig.asyncness.map(|c| br(c.span()).0)).unwrap_or(br(f.sig.fn_token.span()).0);
 					edits.push(Edit { start: a, end: a, parts: vec![Part::Text("pub ".into())], rule: "A5".into(), seq: usize::MAX / 4 });
 				}
-				fn_edits(&mut ctx, src, &name, &f.attrs, &f.sig, &f.block, &fc, &it.replace, whole, &mut edits, false, stub, &name);
+				// R2: a function of an inline module is emitted under a unit-wide unique name
+				let eff_name = it.as_free.clone().unwrap_or(name.clone());
+				if let Some(free) = &it.as_free {
+					let (a, b) = br(f.sig.ident.span());
+					edits.push(Edit { start: a, end: b, parts: vec![Part::Text(free.clone())], rule: "R2".into(), seq: 0 });
+					*ctx.rules.entry("R2".into()).or_insert(0) += 1;
+				}
+				fn_edits(&mut ctx, src, &eff_name, &f.attrs, &f.sig, &f.block, &fc, &it.replace, whole, &mut edits, false, stub, &eff_name);
 				ranges.push(whole);
 			}
 			Found::Impl(im, sel) => {
